@@ -1007,4 +1007,42 @@ mod n {
             c.sample(|| format!("variant {} obstacles {:?} zone {} -> {}", wv, obs, zone, f));
         });
     }
+
+    // ---- C20: embedded climate tables and zone names (finite domains, enumerated completely) ------------------
+    #[test]
+    fn n_c20_tables() {
+        use crate::climatedata::{ClimateZone, CLIMATEMETADATA, JULYRADDATA, MONTHLYRADDATA};
+        use std::convert::TryFrom;
+        drive("C20.tables", "all 32 climate zones: name <-> zone round trip, metadata entry, 9 monthly rows with 12 non-negative values, July design-day rows (non-negative, altitude in [0,90], azimuth in [-180,180])", |c| {
+            let zi = c.pick(climate::CTE_CLIMATEZONES.len());
+            let zname = climate::CTE_CLIMATEZONES[zi];
+            c.note(format!("zone {}", zname));
+            let zone = match ClimateZone::try_from(zname) {
+                Ok(z) => z,
+                Err(_) => {
+                    c.check("C20.zone.parses", false, || format!("zone name {} is not recognised", zname));
+                    return;
+                }
+            };
+            c.check("C20.zone.round_trip", zone.to_string() == zname, || format!("{} prints as {}", zname, zone));
+            c.check("C20.zone.unknown_rejected", ClimateZone::try_from(format!("{}x", zname).as_str()).is_err() && ClimateZone::try_from("").is_err(), || "unknown zone name accepted".to_string());
+            let meta = CLIMATEMETADATA.lock().unwrap().get(&zone).cloned();
+            c.check("C20.tables.meta", matches!(&meta, Some(mi) if mi.zc == zone && mi.latitude > 27.0 && mi.latitude < 44.0), || format!("metadata {:?}", meta));
+            let rows: Vec<_> = MONTHLYRADDATA.lock().unwrap().iter().filter(|r| r.zone == zone).cloned().collect();
+            c.check("C20.tables.monthly.rows", rows.len() == 9 && ORIENTS.iter().all(|o| rows.iter().filter(|r| r.orientation == *o).count() == 1), || format!("{} monthly rows", rows.len()));
+            c.check("C20.tables.monthly.values", rows.iter().all(|r| r.dir.len() == 12 && r.dif.len() == 12 && r.dir.iter().chain(r.dif.iter()).all(|v| v.is_finite() && *v >= 0.0)), || "monthly row with wrong length or negative value".to_string());
+            let july = JULYRADDATA.lock().unwrap().get(&zone).cloned();
+            match july {
+                None => c.check("C20.tables.july.exists", false, || "no July design-day data".to_string()),
+                Some(rows) => {
+                    c.check("C20.tables.july.hours", rows.len() >= 12 && rows.len() <= 16, || format!("{} July hours", rows.len()));
+                    c.check("C20.tables.july.values", rows.iter().all(|r| r.dir >= 0.0 && r.dif >= 0.0 && r.altitude >= 0.0 && r.altitude <= 90.0 && r.azimuth >= -180.0 && r.azimuth <= 180.0 && r.month == 7 && r.hour > 0.0 && r.hour < 24.0), || "July row out of range".to_string());
+                    // the day-of-year used for the design day exists (31 is a valid day)
+                    c.check("C20.tables.july.nday", rows.iter().all(|r| { let n = climate::nday_from_md(r.month, r.day); n >= 182 && n <= 212 }), || "July design day outside July".to_string());
+                }
+            }
+            c.nontrivial(zname.to_string());
+            c.sample(|| format!("{}: lat {:?}", zname, meta.as_ref().map(|m| m.latitude)));
+        });
+    }
 }
